@@ -17,6 +17,7 @@
 //     and four scrambled orders, a fresh cache per query, forks sharing a prefix AND a cache, and the
 //     VersionBitsCache front end. All plans must give the reference's answer.
 #include <vx/vx.h>
+#include <kits/histbfs.h> // hb::guarded only: an assert() inside versionbits.cpp becomes a VIOLATION, not a dead harness
 
 #include <chain.h>
 #include <consensus/params.h>
@@ -139,6 +140,15 @@ struct Gates {
 Gates g_gates;
 std::atomic<uint64_t> g_calls{0};
 vx::Distinct g_trajectories, g_cases;
+// per-thread tallies of the hot counters, added to the globals after every work item
+struct Tally { uint64_t calls = 0, answer[5] = {}; };
+thread_local Tally t_tally;
+void FlushTally()
+{
+    g_calls += t_tally.calls;
+    for (int i = 0; i < 5; i++) g_gates.answer[i] += t_tally.answer[i];
+    t_tally = Tally{};
+}
 
 struct Case { // everything needed to report / replay one chain
     const Config& c;
@@ -146,14 +156,17 @@ struct Case { // everything needed to report / replay one chain
     const std::vector<char>& signals;
     std::string Text(const std::string& plan) const
     {
-        std::string s = "config " + c.name + "\ntimes";
+        std::string s = "# plan: " + plan + "\ntimes";
         for (auto t : times) s += " " + std::to_string(t);
         s += "\nsignals ";
         for (char b : signals) s += b ? '1' : '0';
-        s += "\n# plan: " + plan + "\n";
+        s += "\nconfig " + c.name + "\n";
         return s;
     }
 };
+// The chain the current thread is working on, for the crash guard's report.
+thread_local const Case* t_case = nullptr;
+const std::string DUMMY_HISTORY;
 
 void Mismatch(const Case& cs, const std::string& api, const std::string& plan, int query, const std::string& got, const std::string& want)
 {
@@ -181,12 +194,12 @@ void QueryPlan(const Case& cs, const VersionBitsConditionChecker& checker, const
         const CBlockIndex* prev = q == 0 ? nullptr : path[q - 1];
         const State want = ref[q / cs.c.period];
         const State got = FromImpl(checker.GetStateFor(prev, cache));
-        g_calls++;
-        g_gates.answer[got]++;
+        t_tally.calls++;
+        t_tally.answer[got]++;
         if (got != want) Mismatch(cs, "GetStateFor", plan, q, bip9ref::Name(got), bip9ref::Name(want));
         if (since) {
             const int got_h = checker.GetStateSinceHeightFor(prev, cache), want_h = bip9ref::SinceHeight(rp, ref, q / cs.c.period);
-            g_calls++;
+            t_tally.calls++;
             if (got_h != want_h) Mismatch(cs, "GetStateSinceHeightFor", plan, q, std::to_string(got_h), std::to_string(want_h));
         }
     }
@@ -196,7 +209,7 @@ void CheckStatistics(const Case& cs, const VersionBitsConditionChecker& checker,
 {
     std::vector<bool> bits{true, true, true, true, true, true, true}; // must be reset by the call
     const BIP9Stats st = checker.GetStateStatisticsFor(path[h], &bits);
-    g_calls++;
+    t_tally.calls++;
     const int elapsed = 1 + h % cs.c.period;
     int count = 0;
     std::string want_bits, got_bits;
@@ -219,6 +232,9 @@ void CheckChain(Worker& w, const Config& c, const Consensus::Params& consensus, 
 {
     const int n = c.blocks();
     const Case cs{c, times, signals};
+    t_case = &cs;
+    hb::t_cur = hb::Cur{&DUMMY_HISTORY, -1};
+    struct Done { ~Done() { t_case = nullptr; hb::t_cur = hb::Cur{}; } } done;
     const Consensus::BIP9Deployment& dep = consensus.vDeployments[Consensus::DEPLOYMENT_TESTDUMMY];
     const VersionBitsConditionChecker checker(dep);
     const bip9ref::Params rp{c.period, c.threshold, c.start, c.timeout, c.min_act, c.start == ALWAYS, c.start == NEVER};
@@ -311,7 +327,7 @@ void CheckChain(Worker& w, const Config& c, const Consensus::Params& consensus, 
     for (int q : Order(n, 3)) {
         const CBlockIndex* prev = q == 0 ? nullptr : path[q - 1];
         const State want = ref[q / c.period];
-        g_calls += 2;
+        t_tally.calls += 2;
         if (w.vbc.IsActiveAfter(prev, consensus, Consensus::DEPLOYMENT_TESTDUMMY) != (want == bip9ref::ACTIVE)) Mismatch(cs, "IsActiveAfter", "VersionBitsCache", q, want == bip9ref::ACTIVE ? "false" : "true", want == bip9ref::ACTIVE ? "true" : "false");
         const int32_t v = w.vbc.ComputeBlockVersion(prev, consensus);
         const int32_t want_v = VERSIONBITS_TOP_BITS | ((want == bip9ref::STARTED || want == bip9ref::LOCKED_IN) ? mask : 0);
@@ -319,7 +335,7 @@ void CheckChain(Worker& w, const Config& c, const Consensus::Params& consensus, 
     }
     for (int h = 0; h < n; h++) {
         const BIP9Info info = w.vbc.Info(*path[h], consensus, Consensus::DEPLOYMENT_TESTDUMMY);
-        g_calls++;
+        t_tally.calls++;
         const State cur = ref[h / c.period], next = ref[(h + 1) / c.period];
         const int since = bip9ref::SinceHeight(rp, ref, h / c.period);
         std::optional<int> active_since;
@@ -403,11 +419,10 @@ int Replay()
 
 } // namespace
 
-int main(int argc, char** argv)
+int Explore()
 {
-    vx::init(argc, argv, "C53", "model_checking");
-    if (!vx::ctx().replay.empty()) return Replay();
     auto& E = vx::ev();
+    hb::describer() = [](const std::string&) { return t_case ? t_case->Text("(the process died inside this chain's queries)") : std::string("(no chain)"); };
     const std::vector<Config> configs = Configs(vx::thorough());
     std::atomic<uint64_t> chains{0};
     std::atomic<bool> cut{false};
@@ -451,6 +466,7 @@ int main(int argc, char** argv)
                     CheckChain(w, c, consensus, times, signals);
                 }
                 chains += npat;
+                FlushTally();
             }
         });
         printf("[C53] %-28s chains=%" PRIu64 " (%zu timestamp sequences x %" PRIu64 " signalling patterns) %.1fs\n", c.name.c_str(), chains - before, sels.size() * 2, npat, vx::elapsed() - t0);
@@ -477,4 +493,11 @@ int main(int argc, char** argv)
     if (!g_gates.count_below_threshold) missing += " count==threshold-1";
     if (!missing.empty() && !cut) { printf("HARNESS-ERROR property=C53 vacuous run, never seen:%s\n", missing.c_str()); vx::finish(); return 2; }
     return vx::finish();
+}
+
+int main(int argc, char** argv)
+{
+    vx::init(argc, argv, "C53", "model_checking");
+    if (!vx::ctx().replay.empty()) return Replay();
+    return hb::guarded(Explore);
 }
